@@ -225,7 +225,17 @@ def guards(fn, node, stop=None):
     ``stop`` (an ancestor) limits the walk."""
     out = []
     child = node
-    for anc in fn.ancestors(node):
+    anc = node
+    while True:
+        anc = fn.parents.get(child)
+        if anc is None:
+            break
+        if isinstance(anc, (ast.For, ast.While, ast.AsyncFor)) and _in_list(child, anc.orelse):
+            # the `else:` clause of a loop runs only when no `break` of that loop was taken: every break condition was false in every iteration
+            for b in _own_breaks(anc):
+                bg = guards(fn, b, stop=anc)
+                if len(bg) == 1:
+                    out.append((bg[0][0], not bg[0][1], "loop-else"))
         if isinstance(anc, ast.If):
             if child in anc.body or _in_list(child, anc.body):
                 out.append((anc.test, True, "if"))
@@ -272,6 +282,20 @@ def guards(fn, node, stop=None):
 
 def _in_list(x, lst):
     return any(x is y for y in lst)
+
+
+def _own_breaks(loop):
+    """break statements that leave this loop (not those of nested loops)"""
+    out = []
+    stack = list(loop.body)
+    while stack:
+        n = stack.pop()
+        if isinstance(n, ast.Break):
+            out.append(n)
+        if isinstance(n, (ast.For, ast.While, ast.AsyncFor, ast.FunctionDef, ast.AsyncFunctionDef, ast.ClassDef, ast.Lambda)):
+            continue
+        stack.extend(c for c in ast.iter_child_nodes(n) if isinstance(c, (ast.stmt, ast.ExceptHandler, ast.match_case)))
+    return out
 
 
 def _index(x, lst):
